@@ -24,6 +24,7 @@ type ctlSink struct {
 	name                  string
 	writes, syncs, closes int
 	data                  []byte
+	closeErr              bool // Close reports an error (after having closed)
 }
 
 func (c *ctlSink) Write(p []byte) (int, error) {
@@ -32,7 +33,29 @@ func (c *ctlSink) Write(p []byte) (int, error) {
 	return len(p), nil
 }
 func (c *ctlSink) Sync() error  { c.syncs++; return nil }
-func (c *ctlSink) Close() error { c.closes++; return nil }
+func (c *ctlSink) Close() error {
+	c.closes++
+	if c.closeErr {
+		return errors.New("close of " + c.name + " failed")
+	}
+	return nil
+}
+
+// an encoder whose constructor fails, registered once per process
+var (
+	failEncOnce sync.Once
+	failEncName = fmt.Sprintf("xvfailenc%d", os.Getpid())
+)
+
+func failEncRegister(t interface{ Fatalf(string, ...any) }) {
+	failEncOnce.Do(func() {
+		if err := zap.RegisterEncoder(failEncName, func(zapcore.EncoderConfig) (zapcore.Encoder, error) {
+			return nil, errors.New("encoder constructor failed")
+		}); err != nil {
+			t.Fatalf("registering the failing encoder: %v", err)
+		}
+	})
+}
 
 var (
 	ctlMu     sync.Mutex
@@ -47,7 +70,7 @@ func ctlRegister(t interface{ Fatalf(string, ...any) }) {
 			if u.Host == "fail" {
 				return nil, errors.New("factory failed for " + u.Path)
 			}
-			s := &ctlSink{name: u.String()}
+			s := &ctlSink{name: u.String(), closeErr: u.Host == "okcloseerr"}
 			ctlMu.Lock()
 			ctlOpened = append(ctlOpened, s)
 			ctlMu.Unlock()
@@ -111,7 +134,10 @@ func genC19Paths(t *rapid.T, dir, label string, max int) ([]c19Path, bool) {
 	allOK := true
 	for i := 0; i < n; i++ {
 		var p c19Path
-		switch rapid.IntRange(0, 9).Draw(t, label+"Kind") {
+		switch rapid.IntRange(0, 10).Draw(t, label+"Kind") {
+		case 10:
+			// opens fine; its Close reports an error (which must not keep the others from being closed)
+			p = c19Path{path: fmt.Sprintf("%s://okcloseerr/%s%d", ctlScheme, label, i), kind: "ctl-closeerr", ok: true}
 		case 0, 1, 2:
 			p = c19Path{path: fmt.Sprintf("%s://ok/%s%d", ctlScheme, label, i), kind: "ctl-ok", ok: true}
 		case 3:
@@ -166,7 +192,8 @@ func propC19Open(t *rapid.T) {
 	ctlMu.Unlock()
 	outs, outsOK := genC19Paths(t, dir, "out", 5)
 	errs, errsOK := genC19Paths(t, dir, "err", 4)
-	mode := rapid.SampledFrom([]string{"open", "open", "build", "build", "build-nolevel", "build-noenc", "build-notime"}).Draw(t, "mode")
+	failEncRegister(t)
+	mode := rapid.SampledFrom([]string{"open", "open", "build", "build", "build-nolevel", "build-noenc", "build-notime", "build-encfails"}).Draw(t, "mode")
 	fds := countFDs(dir)
 	flags, prefix, lw := log.Flags(), log.Prefix(), log.Writer()
 	desc := fmt.Sprintf("mode=%s outs=%v errs=%v", mode, pathsOf(outs), pathsOf(errs))
@@ -257,6 +284,9 @@ func propC19Open(t *rapid.T) {
 			wantErr = true
 		case "build-notime":
 			cfg.EncoderConfig.EncodeTime = nil
+			wantErr = true
+		case "build-encfails":
+			cfg.Encoding = failEncName // a registered encoder whose constructor returns an error
 			wantErr = true
 		}
 		lg, err := cfg.Build()
